@@ -149,7 +149,13 @@ def expected_lmdb_keys(events):
             for t in ev["tags"]:
                 if isinstance(t, (list, tuple)) and len(t) >= 2 and isinstance(t[0], str):
                     if len(t[0]) == 1 or t[0] in ("expiration", "delegation"):
-                        out.add(b"\x09" + t[0].encode() + b"\x00" + tag_text(t[1]).encode() + suffix)
+                        tv = tag_text(t[1]).encode("utf-8", "surrogatepass")
+                        if len(tv) > 256:
+                            # values too long for a key are indexed by their digest (documented in the layout)
+                            import hashlib
+
+                            tv = b"\x00sha256\x00" + hashlib.sha256(tv).digest()
+                        out.add(b"\x09" + t[0].encode("utf-8", "surrogatepass") + b"\x00" + tv + suffix)
         except Exception as e:
             problems.append((idhex, repr(e)))
     return out, problems
